@@ -20,7 +20,7 @@ RULE = ("each generated host program with sub-graph call sites (sub-graphs with 
 ASSUMPTIONS = ["vp/model.py flattening is the definition of 'inlined' behaviour", "variants of one group differ only in the how= of the call sites",
                "g++-12 -O1 build of the working tree with harness-side shims"]
 FLOORS = {"variant_pairs_compared": {"quick": 500, "thorough": 8000}, "child_evals_time_checked": {"quick": 5000, "thorough": 80000},
-          "child_timer_wakeups": {"quick": 300, "thorough": 4000}}
+          "child_timer_wakeups": {"quick": 300, "thorough": 4000}, "nested_in_dynamic_child_cases": {"quick": 30, "thorough": 500}}
 BATCH = 24
 
 
@@ -65,6 +65,18 @@ def generate(rng, tier, seed):
         if not any(st.op == "inline" for sts in base.graphs.values() for st in sts):
             continue
         cases += variants(rng, base)
+    # nested graphs started mid-run inside dynamic children (switch branches, map bodies): the C12 / C10 standalone oracles
+    # (sub-graph inlined == nested is part of "the branch / instance run alone") decide these
+    from .c12 import gen_case12
+    from .c10 import gen_case10
+    got, j = 0, 0
+    while got < n // 3 and j < 20 * n:
+        c = gen_case12(rng, f"c09_{seed}_sw{j}", j) if j % 3 else gen_case10(rng, f"c09_{seed}_mp{j}", j)
+        j += 1
+        if any(st.op == "nested" for g, sts in c.graphs.items() if g.startswith("fn") for st in sts):
+            c.meta["delegate"] = "c12" if "spec" in c.meta else "c10"
+            cases.append(c)
+            got += 1
     from .witness import f4_case
     cases.append(f4_case(f"c09_{seed}_witnessF4"))
     return cases
@@ -90,6 +102,11 @@ def check(case, tr):
     if case.meta.get("witness"):
         from .witness import check_witness
         return check_witness(case, tr)
+    if case.meta.get("delegate"):
+        from . import c10, c12
+        r = (c12 if case.meta["delegate"] == "c12" else c10).check(case, tr)
+        r.counters = {"nested_in_dynamic_child_cases": 1, "nested_in_dynamic_child_runs": r.counters.get("instance_runs_compared", 0)}
+        return r
     res = Result(signature=case.text().split("\n", 1)[1])
     if tr.build_error:
         res.violations.append(Violation(f"valid program rejected at build: {tr.build_error}"))
